@@ -36,3 +36,21 @@ func Case() (*World, sdk.Context) {
 	c, _ := ctx.CacheContext()
 	return w, c.WithEventManager(sdk.NewEventManager())
 }
+
+var (
+	noICAOnce  sync.Once
+	noICAWorld *World
+	noICACtx   sdk.Context
+)
+
+// caseNoICA: a branch of a base world whose genesis carries no interchain-accounts state.
+func caseNoICA() (*World, sdk.Context) {
+	noICAOnce.Do(func() {
+		spec := BaseSpec()
+		spec.OmitModules = []string{"interchainaccounts"}
+		noICAWorld = NewWorld(spec)
+		noICACtx = noICAWorld.OpenFast()
+	})
+	c, _ := noICACtx.CacheContext()
+	return noICAWorld, c.WithEventManager(sdk.NewEventManager())
+}
